@@ -3,8 +3,10 @@ package world
 import (
 	"errors"
 	"sync"
+	"sync/atomic"
 
 	"github.com/go-kid/ioc/container"
+	"verifharness/mon"
 )
 
 // FaultScanner is a harness definition-registry post-processor (scanner) that fails for chosen
@@ -77,3 +79,47 @@ func (sc *Scenario) Clone() *Scenario {
 	}
 	return out
 }
+
+// FactoryAware is an ordinary eager component (it has an Init) that also implements
+// ComponentFactoryPostProcessor and DefinitionRegistryPostProcessor - "factory aware" components are
+// still components: they must be wired and initialised before runners run.
+type FactoryAware struct {
+	Nm   string
+	Dep  IA `wire:",required=false"`
+	Log  *mon.Lifecycle
+	Seen int
+}
+
+func (f *FactoryAware) Naming() string { return f.Nm }
+func (f *FactoryAware) Bind(r *Run)    { f.Log = r.Log }
+func (f *FactoryAware) PostProcessComponentFactory(container.Factory) error { return nil }
+func (f *FactoryAware) PostProcessDefinitionRegistry(container.DefinitionRegistry, any, string) error {
+	return nil
+}
+func (f *FactoryAware) Init() error {
+	f.Log.Add("init", f.Nm)
+	return nil
+}
+
+// Zero-size closer components (stateless hooks). All pointers to zero-size values may share one
+// address; they are still distinct components. Their events go to the log installed by SetZeroLog.
+var zeroLog atomic.Pointer[mon.Lifecycle]
+
+func SetZeroLog(l *mon.Lifecycle) { zeroLog.Store(l) }
+
+type ZeroCloserA struct{}
+type ZeroCloserB struct{}
+type ZeroCloserC struct{}
+
+func zeroClose(name string) error {
+	l := zeroLog.Load()
+	l.Add("close-begin", name)
+	l.Add("close-end", name)
+	return nil
+}
+func (*ZeroCloserA) Naming() string { return "zero-closer-a" }
+func (*ZeroCloserB) Naming() string { return "zero-closer-b" }
+func (*ZeroCloserC) Naming() string { return "zero-closer-c" }
+func (*ZeroCloserA) Close() error   { return zeroClose("zero-closer-a") }
+func (*ZeroCloserB) Close() error   { return zeroClose("zero-closer-b") }
+func (*ZeroCloserC) Close() error   { return zeroClose("zero-closer-c") }
